@@ -65,6 +65,19 @@ def sweep_length(quick):
                 yield {"sweep": "length", "spec": one_file_spec(n, s, e, order)}
 
 
+def sweep_slack(quick):
+    """chains that are longer than the file needs (allocated but unused tail sectors), markers inside the data"""
+    for n, extra in ((50, 1), (4026, 1), (4027, 2), (8122, 1)):
+        for order in ("asc", "desc", "rot"):
+            m = A.needed_sectors(140 + 2 * n) + extra
+            base = list(range(4, 4 + m))
+            ch = base[::-1] if order == "desc" else (base[1:] + base[:1] if order == "rot" else base)
+            for (s, e) in ((0, n), (1, n - 1)):
+                spec = one_file_spec(n, s, e)
+                spec["parts"][0]["vols"][0]["files"][0]["chain"] = ch
+                yield {"sweep": "slack", "spec": spec}
+
+
 def sweep_header(quick):
     for rate in (0, 1, 22050, 44100, 48000, 65535):
         for sid in (1, 3):
@@ -185,7 +198,7 @@ class Check(CheckBase):
     rule = ("union of exhaustive sweeps over writer-generated images: (alloc) all injective assignments of pool "
             "sectors to directory+2 file chains for sector-count shapes (1,1)..(3,1) [thorough adds (3,2),(1,3), "
             "2-sector directory]; (length) boundary word counts x start/end markers x chain order; (header) rate x "
-            "sample id x file type x volume type; (structure) partitions{1,2,3} x volumes{0,1,2} x files{0..3} x "
+            "sample id x file type x volume type; (slack) chains longer than the file needs x order x markers; (structure) partitions{1,2,3} x volumes{0,1,2} x files{0..3} x "
             "volume type x directory storage, L/R pair, non-sample siblings, trailing bytes; (pairs) all pairs of "
             "single deviations. non-trivial = non ascending-contiguous multi-sector chain, or file filling its last "
             "sector exactly, or >1 partition/volume")
@@ -194,7 +207,7 @@ class Check(CheckBase):
 
     def shards(self):
         cases = []
-        for sw in (sweep_length, sweep_header, sweep_structure, sweep_pairs, sweep_alloc):
+        for sw in (sweep_length, sweep_slack, sweep_header, sweep_structure, sweep_pairs, sweep_alloc):
             cases.extend(sw(self.quick))
         self._n = len(cases)
         return self.chunk(cases, 24)
